@@ -285,15 +285,29 @@ pub fn run(a: &Args, rep: &mut Report) {
 }
 
 static SLOW_CALLS: std::sync::atomic::AtomicU64 = std::sync::atomic::AtomicU64::new(0);
-/// A deliberately slow, pure helper: many threads are inside it at the same time.
-fn slow_helper(a1: u64, a2: u64, a3: u64, a4: u64, a5: u64) -> u64 {
+/// Deliberately slow, pure helpers: many threads are inside them at the same time. Four different
+/// functions, all registered under the SAME id by different VMs.
+fn slow(j: u64, a: [u64; 5]) -> u64 {
     SLOW_CALLS.fetch_add(1, std::sync::atomic::Ordering::Relaxed);
     let t0 = std::time::Instant::now();
     while t0.elapsed().as_micros() < 40 {
         std::hint::spin_loop();
     }
-    crate::hlp::value(5, [a1, a2, a3, a4, a5])
+    crate::hlp::value(j, a)
 }
+fn slow0(a1: u64, a2: u64, a3: u64, a4: u64, a5: u64) -> u64 {
+    slow(0, [a1, a2, a3, a4, a5])
+}
+fn slow1(a1: u64, a2: u64, a3: u64, a4: u64, a5: u64) -> u64 {
+    slow(1, [a1, a2, a3, a4, a5])
+}
+fn slow2(a1: u64, a2: u64, a3: u64, a4: u64, a5: u64) -> u64 {
+    slow(2, [a1, a2, a3, a4, a5])
+}
+fn slow3(a1: u64, a2: u64, a3: u64, a4: u64, a5: u64) -> u64 {
+    slow(3, [a1, a2, a3, a4, a5])
+}
+const SLOW: [fn(u64, u64, u64, u64, u64) -> u64; 4] = [slow0, slow1, slow2, slow3];
 
 /// 24 threads (more than any fixed limit of 8 or 16 inside the crate), each with its own VM and
 /// engine, all calling a slow helper at the same time: every call must reach the registered
@@ -312,7 +326,7 @@ fn concurrent_helpers(rep: &mut Report, rng: &mut Rng, iters: usize) {
             v.push(Insn::new(CALL, 0, 0, 0, id as i32));
             v.push(Insn::new(ADD64_REG, 0, 6, 0, 0));
             v.push(Insn::new(EXIT, 0, 0, 0, 0));
-            (encode_prog(&v), args, crate::hlp::value(5, args).wrapping_add(0x600 + t as u64))
+            (encode_prog(&v), args, crate::hlp::value((t / 4 % 4) as u64, args).wrapping_add(0x600 + t as u64))
         })
         .collect();
     let ends = sys::run_batch(1, 600, 600, |_i, out| {
@@ -326,7 +340,8 @@ fn concurrent_helpers(rep: &mut Report, rng: &mut Rng, iters: usize) {
                     let engine = [Engine::Interp, Engine::Interp, Engine::Jit, if cfg!(feature = "std") { Engine::Cranelift } else { Engine::Interp }][t % 4];
                     let r = (|| -> Result<(), String> {
                         let mut vm = crate::engines::Vm::new(Kind::NoData, Some(prog), (0, 8))?;
-                        vm.register_helper(id, slow_helper)?;
+                        // (engine = t % 4, function = t / 4 % 4: every engine meets every function)
+                        vm.register_helper(id, SLOW[t / 4 % 4])?;
                         match engine {
                             Engine::Jit => {
                                 #[cfg(not(any(feature = "std", feature = "stdlite")))]
@@ -341,6 +356,23 @@ fn concurrent_helpers(rep: &mut Report, rng: &mut Rng, iters: usize) {
                         }
                         barrier.wait();
                         for k in 0..iters {
+                            // every 50th iteration: a new VM, compiled while the others run
+                            if k % 50 == 49 && engine != Engine::Interp {
+                                vm = crate::engines::Vm::new(Kind::NoData, Some(prog), (0, 8))?;
+                                vm.register_helper(id, SLOW[t / 4 % 4])?;
+                                match engine {
+                                    Engine::Jit => {
+                                        #[cfg(not(any(feature = "std", feature = "stdlite")))]
+                                        {
+                                            let _ = vm.set_jit_exec_memory(crate::exec::exec_memory(1 << 16));
+                                        }
+                                        vm.jit_compile()?
+                                    }
+                                    #[cfg(feature = "std")]
+                                    Engine::Cranelift => vm.cl_compile()?,
+                                    _ => {}
+                                }
+                            }
                             let none = (std::ptr::null_mut(), 0);
                             let got = match engine {
                                 Engine::Jit => unsafe { vm.exec_jit(none, none) },
